@@ -25,6 +25,8 @@ ASSUMPTIONS = [
     "when BOTH dimensions are categorical-date the population rule does not say which date "
     "wins; population outputs are not compared for that pairing",
     "column index, smoothing and pairwise column tests have no row-direction counterpart",
+    "weights are exactly representable here: A x B and B x A add the same numbers in another "
+    "order, and a sort by value (p-value ...) must not be decided by the last bit",
 ]
 
 SHAPES = [s for s in scen.SHAPES_2D] + [("cat_date", "cat_date"), ("cat", "cat")]
@@ -85,7 +87,8 @@ def mirror_transforms(tx):
 
 @st.composite
 def case_st(draw):
-    sc = draw(scen.scenario_st(SHAPES, measure="maybe", stats=["mean", "sum", "stddev"]))
+    sc = draw(scen.scenario_st(SHAPES, measure="maybe", stats=["mean", "sum", "stddev"],
+                               weight_kinds=("none", "int", "dyadic", "zeroheavy")))
     sv, q = sc["survey"], sc["query"]
     from props.c07 import _add_derived
     for var in sv["vars"].values():
